@@ -97,3 +97,23 @@ func (p *P2P) VerifNewStreams() map[lib.Topic]*VerifStream {
 	}
 	return out
 }
+
+// HandlePacketNoDrain feeds one packet to the real Stream.handlePacket and leaves the inbox alone (a consumer that has fallen behind)
+func (v *VerifStream) HandlePacketNoDrain(topic lib.Topic, eof bool, bz []byte) (slash int32, err lib.ErrorI) {
+	return v.s.handlePacket(&lib.PeerInfo{}, &Packet{StreamId: topic, Eof: eof, Bytes: bz}, nil)
+}
+
+// Drain empties the inbox and returns what was in it, oldest first
+func (v *VerifStream) Drain() (delivered [][]byte) {
+	for {
+		select {
+		case m := <-v.inbox:
+			delivered = append(delivered, m.Message)
+		default:
+			return
+		}
+	}
+}
+
+// InboxCap is the capacity of the inbox this stream delivers into
+func (v *VerifStream) InboxCap() int { return cap(v.inbox) }
